@@ -12,7 +12,7 @@ use crate::explore::Report;
 use crate::Args;
 
 pub fn names() -> Vec<&'static str> {
-    vec!["keys", "reuse", "modes", "batch", "removal", "disable", "pairs", "stream-seq", "limit", "manyready", "wait-real", "idle-burst", "reentrancy", "epoll", "exec-seq", "postaction", "lifecycle", "faults", "idle", "composite", "signals", "transient", "crash-probe", "async-io", "pa-table", "timers", "wait", "ping-seq", "chan-seq", "ping-mt", "chan-mt", "sync-mt", "exec-mt", "wakeup", "run", "block_on", "signal-mt"]
+    vec!["keys", "reuse", "modes", "batch", "removal", "disable", "pairs", "stream-seq", "limit", "manyready", "wait-real", "idle-burst", "slot-wrap", "block-on-idle", "reentrancy", "epoll", "exec-seq", "postaction", "lifecycle", "faults", "idle", "composite", "signals", "transient", "crash-probe", "async-io", "pa-table", "timers", "wait", "ping-seq", "chan-seq", "ping-mt", "chan-mt", "sync-mt", "exec-mt", "wakeup", "run", "block_on", "signal-mt"]
 }
 
 pub fn dispatch(args: &Args) -> Option<Report> {
@@ -26,6 +26,8 @@ pub fn dispatch(args: &Args) -> Option<Report> {
         "manyready" => Some(limits::manyready()),
         "wait-real" => Some(limits::wait_real()),
         "idle-burst" => Some(limits::idle_burst()),
+        "slot-wrap" => Some(limits::slot_wrap()),
+        "block-on-idle" => Some(limits::block_on_idle()),
         "pa-table" => Some(regs::pa_table()),
         d if regs::cfg_for(d, &args.tier).is_some() => regs::run(args),
         d if threads::is_driver(d) => threads::run(args),
